@@ -430,13 +430,17 @@ func cmdCheck(args []string) int {
 		"z3 5.1.0 / z3 4.8.12 / cvc5 1.0.3 soundness",
 		"integers are mathematical with explicit two's-complement wrap after every machine operation",
 	}
+	if n := len(cc.cs.Harmless); n > 0 {
+		tb = append(tb, fmt.Sprintf("the %d external presentation functions and packages listed in /verif/trusted/30_harmless.spec (events, logging, metrics, formatting) neither panic nor touch state; they have no contract and their results are unknown to the proofs", n))
+	}
+	nFixed := len(tb)
 	for a := range assumed {
 		tb = append(tb, "assumed contract: "+shortFn(a))
 	}
 	for _, t := range trustedFns {
 		tb = append(tb, "assumed (unchecked) contract on repository function: "+t)
 	}
-	sort.Strings(tb[4:])
+	sort.Strings(tb[nFixed:])
 	var assumptions []string
 	assumptions = append(assumptions, propertyAssumptions(*prop)...)
 	for h := range havocs {
